@@ -12,6 +12,11 @@ mod server_world;
 pub mod verif_hooks {
     pub use super::replication_messages::mutations::verif::{can_pack, mutations_split};
 
+    /// Wrappers for the relation graph.
+    pub mod related {
+        pub use crate::server::related_entities::verif::*;
+    }
+
     /// Wrappers for [`ClientVisibility`](super::client_visibility::ClientVisibility).
     pub mod visibility {
         pub use crate::server::client_visibility::verif::*;
